@@ -4568,3 +4568,193 @@ func ruleUnionIndexSkipsNull(c *core.Ctx) {
 		c.Undecided(rule, "anchor/loops over TypeCases skipping null", 0, "none found")
 	}
 }
+
+// AR1 (C08): an array has dimensions or none at all, never an empty list of them. `dimensions: 0` / `dimensions: []`
+// parse into a non-nil empty ArrayDimensions; IsFixed() is vacuously true for it, so the generators print a fixed array
+// with no extents (`yardl::FixedNDArray<float, >`, `FixedNDArraySerializer(..., (,))`): code that does not compile.
+// Some validation pass therefore reports an error exactly in the state "Dimensions != nil and empty".
+func ruleEmptyDimensionListRejected(c *core.Ctx) {
+	const rule = "AR1"
+	c.Rule(rule, "pkg/dsl validation: a pass reports an error for an *Array whose Dimensions is non-nil and empty (evaluated: the guards of some validationError call hold under that state and depend on nothing else)", 1)
+	p := c.Pkg("pkg/dsl")
+	if p == nil {
+		c.Undecided(rule, "anchor/pkg/dsl", 0, "package not loaded")
+		return
+	}
+	tn, _ := p.Types.Scope().Lookup("ValidationPass").(*types.TypeName)
+	if tn == nil {
+		c.Undecided(rule, "anchor/ValidationPass", 0, "type not found")
+		return
+	}
+	asg := map[string]string{
+		"Node": "Array", "Array.Dimensions != nil": "true", "Array.Dimensions == nil": "false",
+		"len(Array.Dimensions) > 0": "false", "len(Array.Dimensions) == 0": "true", "len(Array.Dimensions) != 0": "false",
+		"len(Array.Dimensions) >= 1": "false", "len(Array.Dimensions) < 1": "true",
+		"Array.HasKnownNumberOfDimensions()": "true",
+	}
+	var hit *gee.Row
+	hitFn := ""
+	nArrayRows := 0
+	for _, d := range c.AllDecls() {
+		if c.DeclPkg(d) != p || d.Body == nil {
+			continue
+		}
+		f, _ := p.TypesInfo.Defs[d.Name].(*types.Func)
+		if f == nil || d.Recv != nil || !types.Identical(f.Type(), tn.Type().Underlying()) {
+			continue
+		}
+		x := &gee.Extractor{Info: p.TypesInfo, Fset: c.Fset, Decl: func(g *types.Func) *ast.FuncDecl {
+			if g == nil || g.Pkg() != p.Types {
+				return nil
+			}
+			return c.Decl(g)
+		}}
+		rows := x.Extract(d.Name.Name, d)
+		for i := range rows {
+			r := &rows[i]
+			if r.Kind != "call" || (r.Tmpl != "validationError" && !strings.HasSuffix(r.Tmpl, ".Add")) {
+				continue
+			}
+			mentions := false
+			for _, g := range r.Guards {
+				if strings.Contains(g, "Array") {
+					mentions = true
+				}
+			}
+			if !mentions {
+				continue
+			}
+			nArrayRows++
+			gs := mapStrings(r.Guards, func(g string) string {
+				g = stripDsl(g)
+				return strings.ReplaceAll(g, "type(Node)∈{Array}", "type(Node)∈{Array}")
+			})
+			a2 := map[string]string{}
+			for k, v := range asg {
+				a2[k] = v
+			}
+			a2["type(Node)"] = "Array"
+			if sat, unknown := guardSat(gs, a2); sat && len(unknown) == 0 {
+				hit, hitFn = r, d.Name.Name
+			}
+		}
+	}
+	if nArrayRows == 0 {
+		c.Undecided(rule, "anchor/array validation", 0, "no error report about *Array found in the validation passes")
+		return
+	}
+	if hit != nil {
+		c.OK(rule, "Array/empty dimension list", hit.Pos, "reported by "+hitFn+": "+strings.Join(hit.Args, " "))
+	} else {
+		c.Bad(rule, "Array/empty dimension list", 0, "no validation pass reports an error for an array whose `dimensions` is present but empty (`dimensions: 0`, `dimensions: []`): it is accepted as a fixed array with no extents and the C++ and Python generators print code that does not compile")
+	}
+}
+
+// Q3b (C13): `T[]` is an array with an UNKNOWN number of dimensions, exactly like `!array {items: T}` without a
+// `dimensions` key: Array.Dimensions stays nil. In dsl.applyTypeTail (the shorthand constructor) every value stored into
+// Array.Dimensions — by assignment or in a composite literal — is stored under a test that the parsed dimension list
+// is not empty.
+func ruleShorthandArrayWithoutDimensions(c *core.Ctx) {
+	const rule = "Q3b"
+	c.Rule(rule, "dsl.applyTypeTail: Array.Dimensions is set only under `len(<parsed dimensions>) > 0` (an empty `[]` leaves it nil, as the expanded form without `dimensions` does)", 1)
+	_, d, p := c.Func("pkg/dsl", "applyTypeTail")
+	if d == nil {
+		c.Undecided(rule, "anchor/pkg/dsl.applyTypeTail", 0, "anchor not found")
+		return
+	}
+	info := p.TypesInfo
+	parent := map[ast.Node]ast.Node{}
+	var stack []ast.Node
+	ast.Inspect(d.Body, func(n ast.Node) bool {
+		if n == nil {
+			stack = stack[:len(stack)-1]
+			return true
+		}
+		if len(stack) > 0 {
+			parent[n] = stack[len(stack)-1]
+		}
+		stack = append(stack, n)
+		return true
+	})
+	nonEmptyGuard := func(n ast.Node) bool {
+		child := n
+		for cur := parent[n]; cur != nil; child, cur = cur, parent[cur] {
+			is, ok := cur.(*ast.IfStmt)
+			if !ok || child != ast.Node(is.Body) {
+				continue
+			}
+			for _, part := range conjuncts(is.Cond) {
+				cond := ast.Unparen(part)
+				if id, isId := cond.(*ast.Ident); isId {
+					cond = ast.Unparen(singleDefRHS(info, d.Body, id))
+				}
+				be, ok := cond.(*ast.BinaryExpr)
+				if !ok {
+					continue
+				}
+				l, r, op := be.X, be.Y, be.Op
+				if _, isLen := lenArg(info, r); isLen {
+					l, r, op = r, l, flipOp(op)
+				}
+				if _, isLen := lenArg(info, l); !isLen {
+					if id, isId := ast.Unparen(l).(*ast.Ident); isId {
+						if _, isLen2 := lenArg(info, singleDefRHS(info, d.Body, id)); !isLen2 {
+							continue
+						}
+					} else {
+						continue
+					}
+				}
+				if v, ok := constInt(info, r); ok && ((op == token.GTR && v == 0) || (op == token.NEQ && v == 0) || (op == token.GEQ && v == 1)) {
+					return true
+				}
+			}
+		}
+		return false
+	}
+	isArrayDims := func(sel *ast.SelectorExpr) bool {
+		if sel.Sel.Name != "Dimensions" {
+			return false
+		}
+		nt := core.NamedOf(info.TypeOf(sel.X))
+		return nt != nil && nt.Obj().Name() == "Array"
+	}
+	n := 0
+	ast.Inspect(d.Body, func(nn ast.Node) bool {
+		switch x := nn.(type) {
+		case *ast.AssignStmt:
+			for i, l := range x.Lhs {
+				if se, ok := ast.Unparen(l).(*ast.SelectorExpr); ok && isArrayDims(se) && i < len(x.Rhs) {
+					if tv, ok := info.Types[x.Rhs[i]]; ok && tv.IsNil() {
+						continue
+					}
+					n++
+					c.Check(nonEmptyGuard(x), rule, fmt.Sprintf("applyTypeTail/Dimensions store#%d", n), x.Pos(), "stored only when the parsed list is not empty",
+						"applyTypeTail stores a dimension list into Array.Dimensions without testing that it is non-empty: `T[]` becomes an array with an empty list of dimensions (rejected / generated as a fixed array with no extents) while `!array {items: T}` is an array of unknown rank")
+				}
+			}
+		case *ast.CompositeLit:
+			if nt := core.NamedOf(info.TypeOf(x)); nt == nil || nt.Obj().Name() != "Array" {
+				return true
+			}
+			for _, e := range x.Elts {
+				kv, ok := e.(*ast.KeyValueExpr)
+				if !ok {
+					continue
+				}
+				if id, ok := kv.Key.(*ast.Ident); ok && id.Name == "Dimensions" {
+					if tv, ok := info.Types[kv.Value]; ok && tv.IsNil() {
+						continue
+					}
+					n++
+					c.Check(nonEmptyGuard(x), rule, fmt.Sprintf("applyTypeTail/Dimensions store#%d", n), x.Pos(), "stored only when the parsed list is not empty",
+						"applyTypeTail builds an Array with Dimensions set without testing that the parsed list is non-empty: `T[]` becomes an array with an empty list of dimensions while `!array {items: T}` is an array of unknown rank")
+				}
+			}
+		}
+		return true
+	})
+	if n == 0 {
+		c.Undecided(rule, "anchor/Dimensions store", d.Pos(), "applyTypeTail never sets Array.Dimensions")
+	}
+}
